@@ -96,7 +96,7 @@ def audit_sources():
 def regenerate(res, prop=None):
     env = dict(os.environ, PYTHONPATH=VERIF, PYTHONHASHSEED='0')
     os.makedirs(os.path.join(COQ, 'Gen'), exist_ok=True)
-    for mod, target in (('vt.tabulate', 'Tables.v'), ('vt.signatures', 'Signatures.v'), ('vt.configs', 'Configs.v'), ('vt.rays', 'Rays.v')):
+    for mod, target in (('vt.tabulate', 'Tables.v'), ('vt.signatures', 'Signatures.v'), ('vt.configs', 'Configs.v'), ('vt.schematab', 'Schema.v'), ('vt.rays', 'Rays.v')):
         if not os.path.exists(os.path.join(VERIF, *mod.split('.')) + '.py'):
             continue
         if target == 'Rays.v' and prop not in (None, 'C19') and os.path.exists(os.path.join(COQ, 'Gen', target)):
